@@ -446,25 +446,6 @@ def run_check(prop, tier, seed):
   known = [f for f in findings if f.get('status') == 'known']
   fixed = [f for f in findings if f.get('status') == 'fixed']
 
-  # 0. replay the witnesses of all listed findings --------------------------------------
-  for f in findings:
-    if 'witness' not in f:
-      continue
-    out, fail = check_case(prop, f['witness'])
-    if f['status'] == 'known':
-      if fail and signature_matches(f, fail['signature']):
-        ctx.say('KNOWN-FINDING: property=%s %s: %s' % (prop.id, f['id'], f['what_fails']))
-      elif fail:
-        ctx.violations.append({'case': f['witness'], 'failure': fail, 'impl_out': out,
-                               'note': 'witness of %s now fails differently' % f['id']})
-      else:
-        ctx.notices.append('NOTICE: witness of known finding %s no longer fails; the defect seems '
-                           'repaired — move the entry to fixed' % f['id'])
-    elif f['status'] == 'fixed' and fail:
-      fail = dict(fail)
-      fail['what'] = 'REGRESSION of %s (fixed in %s): %s' % (f['id'], f.get('commit', '?'), fail.get('what'))
-      ctx.violations.append({'case': f['witness'], 'failure': fail, 'impl_out': out})
-
   # 1-3. translate, prove, audit ---------------------------------------------------------
   theorems, discharged = [], 0
   driver_ok = prop.driver is None
@@ -514,6 +495,25 @@ def run_check(prop, tier, seed):
     hits, modules_seen = forbidden_tokens(prop.props_modules)
     for h in hits:
       ctx.broken.append({'kind': 'audit', 'name': 'forbidden-token', 'detail': h})
+
+  # 0. replay the witnesses of all listed findings --------------------------------------
+  for f in findings:
+    if 'witness' not in f:
+      continue
+    out, fail = check_case(prop, f['witness'])
+    if f['status'] == 'known':
+      if fail and signature_matches(f, fail['signature']):
+        ctx.say('KNOWN-FINDING: property=%s %s: %s' % (prop.id, f['id'], f['what_fails']))
+      elif fail:
+        ctx.violations.append({'case': f['witness'], 'failure': fail, 'impl_out': out,
+                               'note': 'witness of %s now fails differently' % f['id']})
+      else:
+        ctx.notices.append('NOTICE: witness of known finding %s no longer fails; the defect seems '
+                           'repaired — move the entry to fixed' % f['id'])
+    elif f['status'] == 'fixed' and fail:
+      fail = dict(fail)
+      fail['what'] = 'REGRESSION of %s (fixed in %s): %s' % (f['id'], f.get('commit', '?'), fail.get('what'))
+      ctx.violations.append({'case': f['witness'], 'failure': fail, 'impl_out': out})
 
   # 4-5. correspondence and oracle --------------------------------------------------------
   jobs = prop.jobs_quick if tier == 'quick' else prop.jobs_thorough
